@@ -637,6 +637,17 @@ pub fn run(k: &GridCase, focus: Focus, ctx: &mut Ctx) -> Result<Outcome, Failure
             out.valid = false;
             if focus == Focus::Op {
                 ensure!(res.is_err(), format!("{}/invalid-accepted", name), "{}: must panic (argument out of range / sizes differ) but returned", desc());
+            } else if k.recv.is_view() {
+                // C04: whatever a call with bad arguments does (it should panic), the cells
+                // outside the view's rectangle stay as they were
+                for y in 0..lay.pr {
+                    for x in 0..lay.pc {
+                        let is_in = x >= lay.o.0 && x < lay.o.0 + c && y >= lay.o.1 && y < lay.o.1 + r;
+                        if !is_in && after.rows[y][x] != pm.rows[y][x] {
+                            fail!(format!("{}/outside-touched-by-invalid-call", name), "{}: a call with invalid arguments ({}) changed parent cell ({},{}) outside the receiver from {:#x} to {:#x}", desc(), if res.is_err() { "it panicked" } else { "it did not even panic" }, x, y, pm.rows[y][x], after.rows[y][x]);
+                        }
+                    }
+                }
             }
             return Ok(out);
         }
@@ -1414,7 +1425,23 @@ impl Prop for C04 {
     }
     fn strategy(_tier: Tier) -> BoxedStrategy<GridCase> {
         (0u8..=10, 0u8..=10, recv_view(), any::<u32>(), 2u8..=4)
-            .prop_flat_map(|(cols, rows, recv, seed, alphabet)| valid_op(if rows == 0 { 0 } else { cols }, if cols == 0 { 0 } else { rows }).prop_map(move |op| GridCase { cols, rows, recv, keyseed: seed, alphabet, line_keys: vec![], op }))
+            .prop_flat_map(|(cols, rows, recv, seed, alphabet)| {
+                let (ec, er) = (if rows == 0 { 0 } else { cols }, if cols == 0 { 0 } else { rows });
+                // mostly valid arguments (the property's quantifier); some invalid ones, for
+                // which only "outside unchanged" is judged
+                let maybe_invalid = prop_oneof![
+                    (idx(ec), idx(er), idx(ec), idx(er)).prop_map(|(a, b, c, d)| GOp::Swap([a, b, c, d])),
+                    (idx(er), idx(er)).prop_map(|(a, b)| GOp::SwapRows(a, b)),
+                    (idx(ec), idx(ec)).prop_map(|(a, b)| GOp::SwapCols(a, b)),
+                    (idx(er), idx(er)).prop_map(|(a, b)| GOp::RowPairMut(a, b)),
+                    (bound(ec), bound(er)).prop_map(|(a, b)| GOp::Translate(a, b)),
+                    (bound(ec), bound(er), bound(ec), bound(er), bound(ec), bound(er)).prop_map(|(a, b, c, d, e, f)| GOp::CopyWithin { src: [a.min(c), b.min(d), a.max(c), b.max(d)], dest: [e, f] }),
+                    (0u8..11, idx(er.max(ec)), 0u8..3).prop_map(|(form, line, keyfn)| GOp::Sort { form, line, keyfn }),
+                    (idx(ec), idx(er), any::<bool>()).prop_map(|(a, b, via)| GOp::IdxWrite(a, b, via)),
+                    (idx(ec), any::<bool>(), 1u8..3, 0u8..3).prop_map(|(cc, rev, step, skip)| GOp::ColMutWrite { c: cc, rev, step, skip }),
+                ];
+                prop_oneof![9 => valid_op(ec, er), 1 => maybe_invalid.boxed()].prop_map(move |op| GridCase { cols, rows, recv, keyseed: seed, alphabet, line_keys: vec![], op })
+            })
             .boxed()
     }
     fn fuzz_sanitize(k: &mut GridCase) -> bool {
@@ -1427,7 +1454,7 @@ impl Prop for C04 {
         let lay = layout(k.cols as usize, k.rows as usize, &k.recv);
         let out = run(k, Focus::ViewIsolation, ctx)?;
         if !out.valid {
-            ctx.class("invalid-argument(not judged by C04)");
+            ctx.class("invalid-argument(only outside-unchanged is judged)");
             return Ok(());
         }
         ctx.class(&op_name(&k.op));
